@@ -90,7 +90,8 @@ def work(desc: dict) -> Optional[dict]:
             'keep_enforced': bool(case.get('enforced')) and keep_or_enforced(pt, cm_full),
             'pf11': sorted(ptgen.chan_atom(c) for c in pf11_channels(pt, cm_full)),
             'falsy_arith': sorted(ptgen.chan_atom(c) for c in falsy_arith_channels(pt, cm_full)),
-            'drops': any(v is None for v in cm_full.values()) or _has_drop(case['spec'])}
+            'drops': any(v is None for v in cm_full.values()) or _has_drop(case['spec']),
+            'undefined_params': sorted(str(n) for n in set(pt.parameter_names) - set(case['params']))}
     return {'case': ptgen.case_json(case), 'impl': obs['impl'], 'grid': obs['grid'], 'line': line, 'meta': meta,
             'family': desc['family'], 'label': desc.get('label', desc['family']),
             'toleranced': bool(desc.get('toleranced')) or desc.get('stream') == 'decimal' or desc.get('label') == 'huge-counts',
@@ -529,6 +530,29 @@ class Checker:
         reply, impl = rec['reply'], rec['impl']
         diffs = diff_model(impl, reply['model'], reply['tdur'], self.aspects)
         viols = judge(rec, reply, self.aspects)
+        missing_note = None
+        if rec['case'].get('fault') == 'missing':
+            # A declared parameter was removed from the assignment.  The implementation may legitimately need MORE than
+            # the model reads (`RangeScope.keys()` / the eager `map_parameter_values` of atomic templates force enclosing
+            # mapped scopes, notes/C01.md "known limits"), and the flavour of a missing-parameter error is not an
+            # observable of the property.  Decisive is the property clause: a played node that needs the removed
+            # parameter (model and denotation both fail) must not be instantiated.
+            model, spec = reply['model'], reply['spec']
+            if impl['status'] == 'error' and model['status'] in ('ok', 'empty'):
+                if impl['error'] == 'parameter_missing':
+                    diffs = [d for d in diffs if not d.startswith('status:')]
+                    missing_note = 'missing:implementation-needs-more-than-model'
+            elif impl['status'] == 'error' and model['status'] == 'error':
+                if impl['error'] != model['error']:
+                    diffs = [d for d in diffs if not d.startswith('error class:')]
+                    missing_note = 'missing:different-error-flavour'
+            elif impl['status'] in ('ok', 'empty') and model['status'] == 'error' and spec['status'] == 'error':
+                diffs = [d for d in diffs if not d.startswith('status:')]
+                viols.append({'clause': 'missing-parameter-ignored',
+                              'what': 'instantiation returns %s although a played node needs a parameter that is not '
+                                      'given (declared and not assigned: %s; model: %s, denotation: %s)'
+                                      % ('a program' if impl['status'] == 'ok' else 'the empty program',
+                                         rec['meta'].get('undefined_params'), model['error'], spec['error'])})
         if 'durations' in self.aspects:
             exact = self.tdur_exact and not rec.get('toleranced')
             viols += judge_tdur(rec, reply, exact=exact)
@@ -580,6 +604,8 @@ class Checker:
             ctx.count('depth:%d' % rec['meta']['depth'])
             if rec['case'].get('fault'):
                 ctx.count('fault:' + rec['case']['fault'])
+            if missing_note:
+                ctx.count(missing_note)
             if 't' in rec['case']['params'] or any(n['k'] == 'for' and n['idx'] == 't' for n in ptgen.spec_nodes(rec['case']['spec'])):
                 ctx.count('scope-entry-named-t')
             if impl['status'] == 'ok':
